@@ -5,7 +5,8 @@ From Coq Require Import List.
 From Coq.Strings Require Import Byte.
 From GI Require Import Lib.Bytes Gen.DiffConsts Diff.Diff Diff.DiffSpec Diff.DiffBase Diff.DiffProofs
   Diff.TgsProofs Diff.DiffParse Diff.ParseProofs Diff.CtxFacts Diff.BytesFacts Diff.DiffFacts
-  Diff.CoverFacts.
+  Diff.CoverFacts Gen.DiffSrc Diff.SrcFacts Diff.SrcFactsDiff Diff.SrcTheorems.
+From GI Require Lib.GoSem.
 Import ListNotations.
 
 Theorem C08_diff_nil_iff : forall oldName old newName new,
@@ -202,3 +203,56 @@ Theorem C08_cmp_logged_diff_text : forall (expand : bytes -> bytes) env name1 na
   unpatch_text name1 name2 d (cmp_compared expand env data2) = Some text1.
 Proof. exact cmp_logged_diff_text. Qed.
 Print Assumptions C08_cmp_logged_diff_text.
+
+(* ---- fourth wave: the SOURCE as translated.  Gen/DiffSrc.v is diff/diff.go (lines, tgs, Diff)
+   translated to Gallina by harness/go2coq on every run; src_lines / src_tgs / src_Diff are the
+   generated functions (Go ints as Z with Go's bound checks, map[string]int as an association
+   list, bytes.Buffer as the bytes written, the four Fprintf formats as the source has them).
+   [fuel] is the iteration bound of the translated loops; GoSem.Ok / Panic / OutOfFuel are the
+   results of the translation's semantics (Lib/GoSem.v). ---- *)
+
+Theorem C08_source_lines : forall d, src_lines d = GoSem.Ok (lines d).
+Proof. exact src_lines_eq. Qed.
+Print Assumptions C08_source_lines.
+
+Theorem C08_source_tgs : forall fuel x y, length x + 1 <= fuel ->
+  exists ms, tgs x y = Ok ms /\ src_tgs fuel x y = GoSem.Ok (map zp ms).
+Proof. exact src_tgs_total. Qed.
+Print Assumptions C08_source_tgs.
+
+Theorem C08_source_diff_eq : forall fuel oldName old newName new, length old + 1 <= fuel ->
+  src_Diff fuel oldName old newName new = res_conv id (diff oldName old newName new).
+Proof. exact src_Diff_eq. Qed.
+Print Assumptions C08_source_diff_eq.
+
+Theorem C08_source_total : forall fuel oldName old newName new, length old + 1 <= fuel ->
+  exists out, src_Diff fuel oldName old newName new = GoSem.Ok out.
+Proof. exact src_Diff_total. Qed.
+Print Assumptions C08_source_total.
+
+Theorem C08_source_nil_iff : forall fuel oldName old newName new, length old + 1 <= fuel ->
+  (src_Diff fuel oldName old newName new = GoSem.Ok [] <-> old = new).
+Proof. exact source_diff_nil_iff. Qed.
+Print Assumptions C08_source_nil_iff.
+
+Theorem C08_source_hunks : forall fuel oldName old newName new, length old + 1 <= fuel -> old <> new ->
+  exists hs, src_Diff fuel oldName old newName new = GoSem.Ok (render oldName newName hs) /\ hs <> [] /\
+    hunks_wf (lines old) (lines new) hs /\
+    apply_hunks (lines old) hs = Some (lines new) /\
+    apply_hunks (lines new) (swap_hunks hs) = Some (lines old).
+Proof. exact source_diff_hunks. Qed.
+Print Assumptions C08_source_hunks.
+
+Theorem C08_source_bytes_patch : forall fuel oldName old newName new out,
+  length old + 1 <= fuel -> src_Diff fuel oldName old newName new = GoSem.Ok out ->
+  patch_bytes oldName newName out (lines old) = Some (lines new) /\
+  unpatch_bytes oldName newName out (lines new) = Some (lines old).
+Proof. exact source_bytes_patch. Qed.
+Print Assumptions C08_source_bytes_patch.
+
+Theorem C08_source_text_patch : forall fuel oldName old newName new out,
+  length old + 1 <= fuel -> src_Diff fuel oldName old newName new = GoSem.Ok out ->
+  patch_text oldName newName out old = Some new /\
+  unpatch_text oldName newName out new = Some old.
+Proof. exact source_text_patch. Qed.
+Print Assumptions C08_source_text_patch.
